@@ -49,3 +49,23 @@ Qed.
 Theorem residual_inverse (results baseline : Q) : 0 <= baseline ->
   (1 + residual results baseline) * last_election baseline == results.
 Proof. intros H. unfold residual, last_election. field. lra. Qed.
+
+(* ---- C12 / F23: one pass gives the two-party weights, a second pass over the same frame gives the turnout ---- *)
+Theorem first_pass_two_party (f : bframe) : bf_has_margin f = false ->
+  bf_weights (add_baselines_margin f) = Some (bf_dem f + bf_gop f).
+Proof. intros H. unfold add_baselines_margin. cbn [bf_has_margin]. rewrite H. reflexivity. Qed.
+
+Theorem second_pass_turnout (f : bframe) :
+  bf_weights (add_baselines_margin (add_baselines_margin f)) = Some (bf_turnout f).
+Proof.
+  unfold add_baselines_margin. cbn [bf_has_margin bf_turnout bf_dem bf_gop].
+  destruct (bf_has_margin f); cbn [bf_has_margin bf_turnout]; reflexivity.
+Qed.
+
+(* idempotent exactly when nobody voted for a third party *)
+Theorem add_baselines_idempotent_iff (f : bframe) : bf_has_margin f = false ->
+  (weights_eqb (bf_weights (add_baselines_margin (add_baselines_margin f))) (bf_weights (add_baselines_margin f)) = true
+   <-> bf_turnout f == bf_dem f + bf_gop f).
+Proof.
+  intros H. rewrite second_pass_turnout, (first_pass_two_party f H). cbn [weights_eqb]. apply Qeq_bool_iff.
+Qed.
